@@ -113,6 +113,8 @@ v('c08-f18-reverted', 'C08', 'C08/template-prefix-tests-anchored', 'Iterator', (
 v('c04-f23-reverted', 'C04', 'C04/load-unload-pairing', 'rollback', ('rogw/tranp/module/modules.py', "				self.unload(module_path)\n				raise\n", "				raise\n"))
 v('c19-f25-reverted', 'C19', 'C19/error-types-and-curry', 'assert-invoke', ('rogw/tranp/lang/di.py', "		allow_types = [type(arg) for arg, expect_type in zip(remain_args, expect_types) if isinstance(arg, expect_type)]\n		if len(expect_types) != len(remain_args) or len(expect_types) != len(allow_types):", "		allow_types = [type(arg) for index, arg in enumerate(remain_args) if isinstance(arg, expect_types[index])]\n		if len(expect_types) != len(allow_types):"))
 v('c03-f26-reverted', 'C03', 'C03/template-positions-matched-by-index', 'candidate-accept', ('rogw/tranp/semantics/reflection/helper/template.py', "			if diff >= 0 and DSN.left(actual_elems, schema_counts) != schema_elems:\n				continue\n", ""))
+v('c09-f27-reverted', 'C09', 'C09/one-result-per-node', 'exec-stack-popped-on-failure', ('rogw/tranp/semantics/procedure.py', "		try:\n			return self.__exec_impl(root)\n		finally:\n			# 実行に失敗した場合もスタックを破棄する。残したままにすると、呼び出し元(入れ子の実行元)が失敗した実行の結果を参照してしまう\n			self.__stacks.pop()\n", "		result = self.__exec_impl(root)\n		self.__stacks.pop()\n		return result\n"))
+v('c11-f29-reverted', 'C11', 'C11/full-consumption', 'tokenizer-boundary', ('rogw/tranp/implements/syntax/tranp/syntax.py', "		try:\n			tokens = self.tokenizer.parse(source)\n		except Exception as e:", "		tokens = self.tokenizer.parse(source)\n		try:\n			pass\n		except Exception as e:"))
 # ---- C14 / C15 ----
 v('c14-key-renamed', 'C14', 'C14/record-keys-agree', 'Reflection', ('rogw/tranp/semantics/reflection/serializer.py', "				'origin': symbol.types.fullyname,", "				'org': symbol.types.fullyname,"))
 v('c14-via-from-origin', 'C14', 'C14/field-wiring', 'Options.via', ('rogw/tranp/semantics/reflection/serializer.py', "via = db[data['via']] if data['origin'] != data['via'] else None", "via = db[data['origin']] if data['origin'] != data['via'] else None"))
